@@ -136,8 +136,7 @@ def check_audit_rows(audit, handler_name, labels):
         ent = {"W": "workflow", "S": "stage", "T": "task"}[tbl]
         if old in COMPLETE:
             rearm = handler_name in ("JumpToStage", "RestartStage")
-            ok = rearm and ((tbl in ("S", "T") and new == "NOT_STARTED") or (tbl == "W" and new == "RUNNING")
-                            or (tbl in ("S", "T") and new in COMPLETE and handler_name == "JumpToStage"))
+            ok = rearm and ((tbl in ("S", "T") and new == "NOT_STARTED") or (tbl == "W" and new == "RUNNING"))
             if not ok:
                 v.append({"kind": "completed-status-changed", "entity": ent, "id": lab, "old": old, "new": new,
                           "handling": handler_name, "sig": f"completed-changed:{ent}:{old}->{new}:{handler_name}"})
@@ -145,9 +144,7 @@ def check_audit_rows(audit, handler_name, labels):
         if new not in PINNED_TRANSITIONS.get(old, set()):
             # re-arm of an unfinished entity by a jump / restart is the documented exception
             if handler_name in ("JumpToStage", "RestartStage") and new in ("NOT_STARTED",):
-                continue
-            if handler_name == "JumpToStage" and new in ("SKIPPED", "SUCCEEDED", "TERMINAL"):
-                continue  # force-marked by a jump (outside the table by design, C12 says so too)
+                continue  # explicit re-arm for another run
             v.append({"kind": "illegal-transition", "entity": ent, "id": lab, "old": old, "new": new,
                       "handling": handler_name, "sig": f"illegal:{ent}:{old}->{new}:{handler_name}"})
     return v
@@ -198,11 +195,15 @@ class DependencyMonitor(Monitor):
     name = "deps"
 
     def init(self, ex):
-        return {"started": []}
+        return {"started": [], "targets": []}
 
     def step(self, ex, tr, ms):
         v = []
         started = set(ms["started"])
+        # the only exception the property grants: the explicit target named by a JumpToStage message
+        targets = set(ms.get("targets", []))
+        if tr.msg is not None and type(tr.msg).__name__ == "JumpToStage" and tr.exc is None:
+            targets.add(tr.msg.target_stage_ref_id)
         for (_s, tbl, ident, old, new) in tr.audit:
             if tbl != "S":
                 continue
@@ -218,7 +219,8 @@ class DependencyMonitor(Monitor):
             pre = tr.pre.stages.get(lab)
             if pre is None:
                 continue
-            if pre["ctx"].get("_jump_bypass"):
+            if lab in targets:
+                targets.discard(lab)
                 continue
             ups = {d: tr.pre.stages[d]["status"] for d in spec.deps}
             okc = [d for d, s in ups.items() if s in CONTINUABLE]
@@ -251,7 +253,7 @@ class DependencyMonitor(Monitor):
                 st = tr.pre.stages[e["stage"]]["status"]
                 if st == "NOT_STARTED":
                     v.append({"kind": "task-ran-in-unstarted-stage", "stage": e["stage"], "sig": "ran-unstarted"})
-        return {"started": sorted(started)}, v
+        return {"started": sorted(started), "targets": sorted(targets)}, v
 
 
 class DownstreamOfHaltMonitor(Monitor):
